@@ -83,10 +83,10 @@ Proof.
     as (_ & _ & _ & H & _). rewrite H. reflexivity.
 Qed.
 
-Lemma rebuild_cache_failed e s nm :
-  s_failed (fst (rebuild_cache e s nm)) = s_failed s.
+Lemma rebuild_cache_prefix_failed e s nm :
+  s_failed (fst (rebuild_cache_prefix e s nm)) = s_failed s.
 Proof.
-  unfold rebuild_cache. destruct (get_ancestors (s_hn s) nm) as [ancs|]; [|reflexivity].
+  unfold rebuild_cache_prefix. destruct (get_ancestors (s_hn s) nm) as [ancs|]; [|reflexivity].
   assert (Hc : forall l s0, s_failed (fold_left clear_derived l s0) = s_failed s0).
   { induction l as [|a l IH]; intros s0; simpl; [reflexivity|]. rewrite IH. apply clear_derived_failed. }
   match goal with |- context [fold_left ?F ancs ?aa] =>
@@ -100,6 +100,13 @@ Proof.
   destruct r as [[s2 pr2] err]. cbn [fst] in *. now rewrite G, Hc.
 Qed.
 
+Lemma rebuild_cache_failed e s nm :
+  s_failed (fst (rebuild_cache_gen 5 e s nm)) = s_failed s.
+Proof.
+  change (rebuild_cache_gen 5 e s nm) with (rebuild_cache e s nm). unfold rebuild_cache.
+  destruct (doubly_listed s nm); [reflexivity|apply rebuild_cache_prefix_failed].
+Qed.
+
 (* the invariant: a ready view has no rebuild outstanding *)
 Definition ready_ok (s : st) : Prop := s_ready s = true -> s_failed s = [].
 
@@ -109,7 +116,7 @@ Proof.
   destruct (Pos.eqb k y) eqn:E; simpl; [exact IH|]. now rewrite E.
 Qed.
 
-Lemma refresh_ready_ok e s : ready_ok (refresh_ready 4 e s).
+Lemma refresh_ready_ok e s : ready_ok (refresh_ready 5 e s).
 Proof.
   unfold refresh_ready, ready_ok. cbn [fx1 Nat.ltb Nat.leb].
   (* the loop removes every name it gets through; it stops only with Ready = false *)
@@ -117,9 +124,9 @@ Proof.
     let r := fold_left (fun (acc : st * bool) k => let '(s0, e0) := acc in
                    if (e0 : bool) then acc else
                    match aget k (s_hn s0) with
-                   | None => (unfail 4 s0 k, false)
-                   | Some _ => let '(s1, e1) := rebuild_cache e s0 k in
-                               if (e1 : bool) then (set_ready s1 false, true) else (unfail 4 s1 k, false)
+                   | None => (unfail 5 s0 k, false)
+                   | Some _ => let '(s1, e1) := rebuild_cache_gen 5 e s0 k in
+                               if (e1 : bool) then (set_ready s1 false, true) else (unfail 5 s1 k, false)
                    end) l (s0, false) in
     (snd r = true -> s_ready (fst r) = false) /\
     (snd r = false -> forall x, pmem x (s_failed (fst r)) = true -> pmem x (s_failed s0) = true /\ ~ In x l)).
@@ -128,13 +135,13 @@ Proof.
     - assert (Hstop : forall l' (a : st), fold_left (fun (acc : st * bool) k => let '(s0, e0) := acc in
                    if (e0 : bool) then acc else
                    match aget k (s_hn s0) with
-                   | None => (unfail 4 s0 k, false)
-                   | Some _ => let '(s1, e1) := rebuild_cache e s0 k in
-                               if (e1 : bool) then (set_ready s1 false, true) else (unfail 4 s1 k, false)
+                   | None => (unfail 5 s0 k, false)
+                   | Some _ => let '(s1, e1) := rebuild_cache_gen 5 e s0 k in
+                               if (e1 : bool) then (set_ready s1 false, true) else (unfail 5 s1 k, false)
                    end) l' (a, true) = (a, true)).
       { induction l' as [|k' l' IH']; intros a; simpl; [reflexivity|apply IH']. }
       assert (Hun : forall s1, s_failed s1 = s_failed s0 ->
-                forall x, pmem x (s_failed (unfail 4 s1 k)) = true -> pmem x (s_failed s0) = true /\ x <> k).
+                forall x, pmem x (s_failed (unfail 5 s1 k)) = true -> pmem x (s_failed s0) = true /\ x <> k).
       { intros s1 Hs1 x Hx. unfold unfail in Hx. cbn [fx1 Nat.ltb Nat.leb] in Hx.
         unfold set_failed in Hx. simpl in Hx. rewrite Hs1 in Hx. split.
         - unfold pdel in Hx. clear -Hx. induction (s_failed s0) as [|y r IHr]; simpl in *; [discriminate|].
@@ -144,12 +151,12 @@ Proof.
         - intro; subst x. now rewrite pdel_notin in Hx. }
       destruct (aget k (s_hn s0)) as [i|] eqn:Ek.
       + pose proof (rebuild_cache_failed e s0 k) as Hf.
-        destruct (rebuild_cache e s0 k) as [s1 e1]. simpl in Hf. destruct e1.
+        destruct (rebuild_cache_gen 5 e s0 k) as [s1 e1]. simpl in Hf. destruct e1.
         * rewrite Hstop. simpl. split; [reflexivity|discriminate].
-        * specialize (IH (unfail 4 s1 k)). simpl in IH. destruct IH as [I1 I2]. split; [exact I1|].
+        * specialize (IH (unfail 5 s1 k)). simpl in IH. destruct IH as [I1 I2]. split; [exact I1|].
           intros Hs x Hx. destruct (I2 Hs x Hx) as [J1 J2]. destruct (Hun s1 Hf x J1) as [K1 K2].
           split; [exact K1|]. intros [->|Hin]; [congruence|contradiction].
-      + specialize (IH (unfail 4 s0 k)). simpl in IH. destruct IH as [I1 I2]. split; [exact I1|].
+      + specialize (IH (unfail 5 s0 k)). simpl in IH. destruct IH as [I1 I2]. split; [exact I1|].
         intros Hs x Hx. destruct (I2 Hs x Hx) as [J1 J2]. destruct (Hun s0 eq_refl x J1) as [K1 K2].
         split; [exact K1|]. intros [->|Hin]; [congruence|contradiction]. }
   specialize (G (s_failed s) s). cbv zeta in G.
@@ -197,7 +204,7 @@ Proof.
   - match goal with |- context [let '(_, _) := ?c in _] => destruct c as [s4 err] end.
     destruct err; cbn [fst].
     + intros Hr. unfold mark_failed, set_ready in Hr. simpl in Hr. discriminate.
-    + pose proof (freed_loop_err e (o_name o) freed (unfail 4 s4 (o_name o), false)
+    + pose proof (freed_loop_err e (o_name o) freed (unfail 5 s4 (o_name o), false)
                     ltac:(simpl; discriminate)) as G.
       match goal with |- context [let '(_, _) := ?c in _] => set (r := c) in * end.
       change (snd r = true -> s_ready (fst r) = false) in G.
@@ -257,11 +264,11 @@ Proof.
   assert (G : forall evs es, ready_ok (snd es) -> ready_ok (snd (fold_left step evs es))).
   { induction evs0 as [|ev r IH]; intros [e0 s0] H0; cbn [fold_left]; [exact H0|].
     apply IH. unfold step, step_gen. destruct ev as [o|nm|n|n]; cbn [snd] in *.
-    - change (upd_gen 4 e0 s0 o) with (upd e0 s0 o). now apply upd_ready_ok.
-    - change (del_gen 4 e0 s0 nm) with (del e0 s0 nm). apply del_ready_ok.
-    - match goal with |- context [trigger_gen 4 ?e' s0 n] => change (trigger_gen 4 e' s0 n) with (trigger e' s0 n) end.
+    - change (upd_gen 5 e0 s0 o) with (upd e0 s0 o). now apply upd_ready_ok.
+    - change (del_gen 5 e0 s0 nm) with (del e0 s0 nm). apply del_ready_ok.
+    - match goal with |- context [trigger_gen 5 ?e' s0 n] => change (trigger_gen 5 e' s0 n) with (trigger e' s0 n) end.
       now apply trigger_ready_ok.
-    - match goal with |- context [trigger_gen 4 ?e' s0 n] => change (trigger_gen 4 e' s0 n) with (trigger e' s0 n) end.
+    - match goal with |- context [trigger_gen 5 ?e' s0 n] => change (trigger_gen 5 e' s0 n) with (trigger e' s0 n) end.
       now apply trigger_ready_ok. }
   apply (G evs (e, init_st)). intros _. reflexivity.
 Qed.
@@ -317,7 +324,14 @@ Proof.
     apply In_aset in Hin. destruct Hin as [->|Hin].
     - cbn [snd i_tier]. now rewrite Z.ltb_irrefl.
     - rewrite (Hunc ki Hin). apply andb_false_r. }
-  unfold rebuild_cache in Eu.
+  assert (H3l : listed_by (s_hn s3) nm = []).
+  { unfold listed_by. rewrite filter_all_false; [reflexivity|].
+    intros ki Hin. apply In_aset in Hin. destruct Hin as [->|Hin].
+    - cbn [fst]. now rewrite Pos.eqb_refl.
+    - pose proof (Hunc ki Hin) as Hc. unfold claims in Hc. rewrite Hc. apply andb_false_r. }
+  change (rebuild_cache_gen 5 e s3 nm) with (rebuild_cache e s3 nm) in Eu.
+  unfold rebuild_cache, doubly_listed in Eu. rewrite H3l in Eu. cbn [length Nat.ltb Nat.leb] in Eu.
+  rewrite andb_false_r in Eu. unfold rebuild_cache_prefix in Eu.
   rewrite (get_ancestors_root _ _ _ H3nm eq_refl H3u) in Eu.
   cbn [fold_left length] in Eu.
   set (s0 := clear_derived s3 nm) in Eu.
